@@ -418,8 +418,93 @@ def line_window_params():
     return out
 
 
+def thread_lifecycle_cases(rep):
+    """The owner is a real bellows.thread.EventLoopThread.  While its loop is held busy (gate), a stop request and one call
+    through the proxy are queued in either order; the gate is released, the thread ends.  Both orders x {a coroutine that is still
+    suspended when the loop stops, one that finishes at once, a plain call} are enumerated; ordering is forced, nothing is left to
+    the OS scheduler.  Afterwards the owner's loop is gone: a plain call and a coroutine call through the proxy must be dropped --
+    return at once, run nothing, hand back nothing to wait on."""
+    import threading
+
+    from bellows.thread import EventLoopThread, ThreadsafeProxy
+
+    n = 0
+    for order in ("stop-first", "call-first"):
+        for window in ("co_suspended", "co_val", "plain_none"):
+            n += 1
+            log = []
+            probe = Probe(log)
+
+            async def co_suspended(arg, probe=probe):
+                probe._rec("co_suspended", arg)
+                await asyncio.sleep(3600)
+
+            probe.co_suspended = co_suspended
+            msgs = []
+
+            async def scenario():
+                th = EventLoopThread()
+                await th.start()
+                owner_loop = th.loop
+                proxy = ThreadsafeProxy(probe, owner_loop)
+                gate, entered = threading.Event(), threading.Event()
+
+                def blocker():
+                    entered.set()
+                    gate.wait(20)
+
+                owner_loop.call_soon_threadsafe(blocker)
+                if not entered.wait(20):
+                    msgs.append("harness: owner loop did not start")
+                    return
+                if order == "stop-first":
+                    th.force_stop()
+                    getattr(proxy, window)("w")
+                else:
+                    getattr(proxy, window)("w")
+                    th.force_stop()
+                gate.set()
+                try:
+                    await asyncio.wait_for(asyncio.shield(th.thread_complete), 20)
+                except asyncio.TimeoutError:
+                    msgs.append(f"{order}/{window}: the owner thread did not end after force_stop")
+                    return
+                n_exec = len(log)
+                r1 = proxy.plain_none("late")
+                r2 = proxy.co_val("late")
+                await asyncio.sleep(0.05)
+                if r1 is not None:
+                    msgs.append(f"{order}/{window}: a plain call made after the owner's thread and loop ended returned {r1!r}")
+                if r2 is not None:
+                    done = getattr(r2, "done", lambda: False)()
+                    msgs.append(f"{order}/{window}: a coroutine call made after the owner's thread and loop ended was not dropped: it returned "
+                                f"{'a finished' if done else 'a never-finishing'} awaitable")
+                    if hasattr(r2, "cancel"):
+                        r2.cancel()
+                if len(log) != n_exec:
+                    msgs.append(f"{order}/{window}: a call made after the owner's loop ended was executed: {log[n_exec:]}")
+
+            loop = asyncio.new_event_loop()
+            try:
+                loop.run_until_complete(asyncio.wait_for(scenario(), 90))
+            except Exception as e:  # noqa
+                msgs.append(f"{order}/{window}: scenario raised {type(e).__name__}: {e}")
+            finally:
+                try:
+                    loop.run_until_complete(asyncio.sleep(0))
+                    loop.close()
+                except Exception:  # noqa
+                    pass
+            for m in msgs:
+                if m.startswith("harness:"):
+                    raise explore.InternalError(m)
+                rep.add_violation("C20|thread|" + m.split(": ", 1)[1][:70], "EventLoopThread owner, " + m, {"world": "c20", "kind": "thread", "order": order, "window": window})
+    return n
+
+
 def main(tier: str) -> int:
     rep = report.Report("C20", tier, "model_checking")
+    n_thread = thread_lifecycle_cases(rep)
     k = 4 if tier == "quick" else 6
     st = explore.dbdfs(("mc.checks.c20", "build"), param_list(tier), k, budget_s=(60 if tier == "quick" else 1200))
     st2 = explore.dbdfs(("mc.checks.c20", "build"), line_window_params(), 0)
@@ -429,6 +514,7 @@ def main(tier: str) -> int:
     if len(st.signatures) < 20:
         raise explore.InternalError(f"C20 vacuous: {len(st.signatures)} signatures")
     rep.coverage = {
+        "real_thread_lifecycle_cases": n_thread,
         "states": st.steps + st2.steps,
         "transitions": st.steps + st2.steps,
         "traces_validated_against_impl": st.executions + st2.executions,
@@ -453,6 +539,12 @@ def main(tier: str) -> int:
 
 
 def replay(data) -> int:
+    if data.get("kind") == "thread":
+        rep = report.Report("C20", "quick", "model_checking")
+        thread_lifecycle_cases(rep)
+        for v in rep.violations:
+            print(v.key, v.message)
+        return 1 if rep.violations else 0
     p = dict(data["params"])
     p["scripts"] = [tuple(s) for s in p["scripts"]]
     if p.get("line_preempt"):
